@@ -71,10 +71,44 @@ package bmtree
 //@ func PathToIndexLoose returns (idx, has)
 //@   assigns nothing
 
+// the lookup tables for the last levels: row 2^lvl holds, at position i, the path of the node
+// with pre-order index i in the full tree of height lvl
+//@ global idxToPath: len(idxToPath) == 9 && len(idxToPath[0]) == 1 && len(idxToPath[1]) == 1 && len(idxToPath[2]) == 3 && len(idxToPath[4]) == 7 && len(idxToPath[8]) == 15 && idxToPath[0][0] == 0 && (forall i int :: 0 <= i && i < 1 ==> wfPath(idxToPath[1][i], 0) && fullIdx(idxToPath[1][i]) == int32(i)) && (forall i int :: 0 <= i && i < 3 ==> wfPath(idxToPath[2][i], 1) && fullIdx(idxToPath[2][i]) == int32(i)) && (forall i int :: 0 <= i && i < 7 ==> wfPath(idxToPath[4][i], 2) && fullIdx(idxToPath[4][i]) == int32(i)) && (forall i int :: 0 <= i && i < 15 ==> wfPath(idxToPath[8][i], 3) && fullIdx(idxToPath[8][i]) == int32(i))
+
+//@ func init
+//@   initphase
+//@   assigns idxToPath
+//@   establishes globals
+//@   reveal PC32, PC16, PC8
+
+// ---- C05: IndexToPath inverts the full-tree PathToIndex ----
+// Loop invariant in the code's own "path*2" coordinates: b = uint32(mask) is the single bit of
+// the current level, uint32(p2) the ones above it up to bit treeheight, the high half of p2 the
+// chosen path bits; old(index) = P2 + popcount(M2) - popcount(P2) + index (C03's closed form),
+// and index ranges over the current subtree. The h > 4 shortcut must establish that invariant:
+// identity by algebra, range by a split over (treeheight, diffbits).
+
 //@ func IndexToPath returns (p)
+//@   requires 0 <= treeheight && treeheight <= 30 && 0 <= index && int64(index) < (int64(1) << uint64(treeheight + 1)) - 1
+//@   ensures wfPath(p, treeheight) && fullIdx(p) == index
 //@   assigns nothing
+//@   splitret mask & 15 0 8
+//@   useret pc32_zero(0)
 //@   loop 1
-//@     invariant true
+//@     invariant uint32(mask) != 0 && uint32(mask) & (uint32(mask) - 1) == 0 && mask == uint64(uint32(mask)) << 32 | uint64(uint32(mask)) && uint64(uint32(mask)) <= uint64(1) << uint64(treeheight)
+//@     invariant uint32(p2) == uint32(lowmask(int(treeheight) + 1)) & ^(uint32(mask) | (uint32(mask) - 1))
+//@     invariant uint32(p2 >> 32) & ^uint32(p2) == 0
+//@     invariant 0 <= index && uint64(uint32(index)) <= 2 * uint64(uint32(mask)) - 2
+//@     invariant old(index) == int32(uint32(p2 >> 32)) + PC32(uint32(p2)) - PC32(uint32(p2 >> 32)) + index
+//@     use pc32_or_bit(uint32(p2), uint32(mask))
+//@     use pc32_or_bit(uint32(p2 >> 32), uint32(mask))
+//@     use itp_compose(p2, idxToPath[int(mask & 15)][int(index)], treeheight, 31 - lz32(uint32(mask)))
+//@     splitentry#4 treeheight 5 30
+//@     splitentry#4 diffbits 0 32
+//@     revealentry#4 PC32, PC16, PC8
+//@     splitentry#5 treeheight 5 30
+//@     splitentry#5 diffbits 0 32
+//@     revealentry#5 PC32, PC16, PC8
 
 //@ func AllPaths returns (paths)
 //@   ensures fresh(paths)
